@@ -494,6 +494,18 @@ def medium_cases(seed=0):
         cases.append(dict(shape=list(shape), units=units, annotators=[ANN[a] for a in range(len(shape))],
                           alpha=rnd.choice([0, 1, 3]), beta=rnd.choice([0, 1, 2]), de=rnd.choice([0.5, 1, 2.5]),
                           dissim=rnd.choice(["combined", "positional"])))
+    # delta_empty values that are not float32-representable (0.1, 0.2, ...) with isolated units that can only stay alone:
+    # the pruning criterion of the tuple enumeration sits next to the cost of such a tuple, and only float rounding (which the
+    # real-arithmetic model does not see) decides on which side
+    for k, (shape, de) in enumerate((((2, 2, 1), 0.1), ((2, 1, 2), 0.2), ((1, 2, 1, 1), 0.4), ((2, 2, 2), 0.05), ((1, 1, 2, 1), 0.9),
+                                     ((2, 1, 1), 0.8), ((1, 1, 1), 0.3), ((2, 2, 1), 0.7))):
+        units = []
+        for a, nu in enumerate(shape):
+            for j in range(nu):
+                s = 100.0 * j + (0.4 * a if j == 0 else 37.0 * a + 11.0)     # first units overlap, later ones are far from everything
+                units.append([ANN[a], repr(s), repr(s + 1.0 + 0.25 * a), ["x", "y"][(a + j) % 2]])
+        cases.append(dict(shape=list(shape), units=units, annotators=[ANN[a] for a in range(len(shape))], alpha=1, beta=[0, 1][k % 2],
+                          de=de, dissim=["combined", "positional"][(k // 2) % 2]))
     return cases
 
 
